@@ -71,6 +71,44 @@ def skip_noncode(src, i):
     return None
 
 
+def string_literals(src):
+    """Plain (non-raw) string literals of src, outside comments, in order of appearance, without duplicates."""
+    out, i, n = [], 0, len(src)
+    while i < n:
+        j = skip_noncode(src, i)
+        if j is not None:
+            if src[i] == '"':
+                lit = src[i + 1:j - 1]
+                if lit not in out:
+                    out.append(lit)
+            i = j
+        else:
+            i += 1
+    return out
+
+
+def strlit_prelude(keys, body):
+    """R16: string literals are opaque to the verifier until revealed. For the listed attribute keys, emit a proof block that
+    reveals them and every plain ASCII literal of the body and asserts that each key differs from each other literal (by length, or
+    by the first differing character): checked hints, not assumptions. A new literal in the body therefore never makes a
+    'this key occurs once' clause unprovable."""
+    lits = [l for l in string_literals(body) if '\\' not in l and all(32 <= ord(ch) < 127 for ch in l) and '{' not in l]
+    allv = list(dict.fromkeys(list(keys) + lits))
+    lines = ['    proof {']
+    lines.append('        ' + ' '.join('reveal_strlit("%s");' % l for l in allv))
+    for k in keys:
+        for l in allv:
+            if l == k:
+                continue
+            if len(l) != len(k):
+                lines.append('        assert("%s"@.len() == %d && "%s"@.len() == %d); assert("%s"@ != "%s"@);' % (k, len(k), l, len(l), k, l))
+            else:
+                d = next(i for i in range(len(k)) if k[i] != l[i])
+                lines.append('        assert("%s"@[%d] != "%s"@[%d]); assert("%s"@ != "%s"@);' % (k, d, l, d, k, l))
+    lines.append('    }')
+    return '\n'.join(lines)
+
+
 def match_close(src, i, open_ch='{', close_ch='}'):
     """src[i] == open_ch; return index of matching close_ch."""
     assert src[i] == open_ch, (src[i:i + 20], open_ch)
@@ -297,6 +335,10 @@ def rewrite_body(body, mode, stats):
     body = apply_counted(r'bucket_read\(\s*([\w.]+)\s*,\s*(KEY_\w+)\s*\)\s*\.load\(', r'bucket_load__\2(\1, ', body, stats, 'R11_storage_prim')
     body = apply_counted(r'bucket\(\s*([\w.]+)\s*,\s*(KEY_\w+)\s*\)\s*\.save\(', r'bucket_save__\2(\1, ', body, stats, 'R11_storage_prim')
     body = apply_counted(r'let\s+mut\s+store\s*:\s*Singleton<\w+>\s*=\s*singleton\(\s*(\w+)\s*,\s*(KEY_\w+)\s*\)\s*;\s*store\.remove\(\)', r'singleton_remove__\2(\1)', body, stats, 'R11_storage_prim')
+    # R11: the engine's position bucket (helper fns position_bucket / position_bucket_read wrap bucket(storage, KEY_POSITION)), any key variable
+    body = apply_counted(r'position_bucket\(\s*([\w.]+)\s*\)\s*\.save\(', r'position_bucket_save(\1, ', body, stats, 'R11_storage_prim')
+    body = apply_counted(r'position_bucket\(\s*([\w.]+)\s*\)\s*\.remove\(', r'position_bucket_remove(\1, ', body, stats, 'R11_storage_prim')
+    body = apply_counted(r'position_bucket_read\(\s*([\w.]+)\s*\)\s*\.may_load\(', r'position_bucket_may_load(\1, ', body, stats, 'R11_storage_prim')
     # R11: cw_storage_plus Item / Map constants
     body = apply_counted(r'\b([A-Z][A-Z_]+)\.may_load\(', r'item_may_load__\1(', body, stats, 'R11_storage_prim')
     body = apply_counted(r'\b([A-Z][A-Z_]+)\.save\(', r'item_save__\1(', body, stats, 'R11_storage_prim')
@@ -492,6 +534,7 @@ def process_template(unit, tpl_path):
             e = src.find(';', ms[0].start())
             text = src[ms[0].start():e + 1].strip()
             text = re.sub(r'^pub\(crate\)', 'pub', text)
+            text = re.sub(r':\s*&str\s*=', ": &'static str =", text, count=1)   # elided 'static in a const: the verus! macro wants it spelled out
             if exec_ens is not None:
                 mm = re.match(r'(pub\s+)?const\s+(\w+)\s*:\s*([^=]+?)\s*=\s*(.*);$', text, re.S)
                 if not mm:
@@ -548,6 +591,7 @@ def process_fn(unit, lines, i, arg, rel_tpl):
     subs = []
     suball = []
     attrs = []
+    strlit_keys = None
     while j < len(lines) and lines[j].strip() != '//@end':
         s = lines[j].strip()
         if s.startswith('//@loop'):
@@ -561,8 +605,16 @@ def process_fn(unit, lines, i, arg, rel_tpl):
             sections.append(('atend', None, []))
         elif s.startswith('//@attr'):
             attrs.append(s[len('//@attr'):].strip())
+        elif s.startswith('//@strlits'):
+            strlit_keys = re.findall(r'"([^"]*)"', s)
         elif s.startswith('//@rename'):
             renames.update(dict(p.split('=') for p in s.split()[1:]))
+        elif s.startswith('//@subopt'):
+            # like //@sub but the anchor may be absent (alternative spellings of the same construct)
+            parts_ = s[len('//@subopt'):].split(' ==> ', 1)
+            if len(parts_) != 2:
+                raise AssembleError('bad //@subopt at %s:%d' % (rel_tpl, j + 1))
+            subs.append((parts_[0].strip(), parts_[1].strip(), True))
         elif s.startswith('//@suball'):
             parts_ = s[len('//@suball'):].split(' ==> ', 1)
             if len(parts_) != 2:
@@ -572,7 +624,7 @@ def process_fn(unit, lines, i, arg, rel_tpl):
             parts_ = s[len('//@sub'):].split(' ==> ', 1)
             if len(parts_) != 2:
                 raise AssembleError('bad //@sub at %s:%d' % (rel_tpl, j + 1))
-            subs.append((parts_[0].strip(), parts_[1].strip()))
+            subs.append((parts_[0].strip(), parts_[1].strip(), False))
         elif s.startswith('//@'):
             raise AssembleError('unknown fn directive %s at %s:%d' % (s, rel_tpl, j + 1))
         else:
@@ -661,10 +713,12 @@ def process_fn(unit, lines, i, arg, rel_tpl):
               if cnt < 1:
                   raise AssembleError('fn %s: //@suball anchor %r matched 0 times' % (name, old))
               st['Rsub_declared'] = st.get('Rsub_declared', 0) + cnt
-          for old, new in subs:
-              # whitespace-insensitive, must match exactly once
+          for old, new, optional in subs:
+              # whitespace-insensitive, must match exactly once (//@subopt: at most once)
               rx = r'\s*'.join(re.escape(ch) for ch in old if not ch.isspace())
               ms = list(re.finditer(rx, body))
+              if optional and len(ms) == 0:
+                  continue
               if len(ms) != 1:
                   raise AssembleError('fn %s: //@sub anchor %r matched %d times' % (name, old, len(ms)))
               body = body[:ms[0].start()] + new + body[ms[0].end():]
@@ -702,6 +756,9 @@ def process_fn(unit, lines, i, arg, rel_tpl):
               elif kind == 'atend':
                   inserts.append((len(body) - 1, '\n' + text + '\n', origin, sl))
                   st['R5_proof_hint'] = st.get('R5_proof_hint', 0) + 1
+          if strlit_keys is not None:
+              inserts.append((1, '\n' + strlit_prelude(strlit_keys, body) + '\n', 'R16', []))
+              st['R16_strlit_prelude'] = st.get('R16_strlit_prelude', 0) + 1
           if prefix:
               inserts.append((1, prefix, 'R2', []))
 
